@@ -1,6 +1,9 @@
 import VModel.Tantivy
 import VProofs.C01
 import VProofs.C15
+import VProofs.Lemmas.TkNorm
+import VProofs.Lemmas.TkOffsets
+import VProofs.Lemmas.TkPipeline
 /-!
 # C16 — Normalisation keeps character positions; search tokens tile the original text
 
@@ -13,11 +16,11 @@ namespace V
 
 /-- the full-width normaliser maps every string to one with the same number of characters -/
 theorem C16_norm_len (s : List Char) : (Gen.fullwidth s).length = s.length := by
-  sorry
+  exact C16L.fullwidth_length s
 
 /-- … is idempotent -/
 theorem C16_norm_idem (s : List Char) : Gen.fullwidth (Gen.fullwidth s) = Gen.fullwidth s := by
-  sorry
+  exact C16L.fullwidth_idem s
 
 /-- … and changes only the characters in its table, each to the single character the table lists -/
 theorem C16_norm_only_table (s : List Char) :
@@ -25,7 +28,7 @@ theorem C16_norm_only_table (s : List Char) :
       match Gen.lookupFw c.toNat Gen.fullwidthTable with
       | some [v] => Char.ofNat v
       | _ => c := by
-  sorry
+  exact C16L.fullwidth_eq_map s
 
 /-- tokens tile the text: the first starts at byte 0, each starts where the previous one ended, each is non-empty, lies on
 character boundaries of the ORIGINAL text and carries exactly that substring, positions count 0, 1, 2, …, and the last one
@@ -36,15 +39,32 @@ def StreamChain (text : List Char) : List StreamToken → Nat → Nat → Prop
     t.offsetFrom = off ∧ off < t.offsetTo ∧ t.position = pos ∧ sliceBytes text off t.offsetTo = some t.text ∧
       StreamChain text r t.offsetTo (pos + 1)
 
+/-- `C16L.Chain` (used by the helper lemmas) is the same predicate -/
+theorem streamChain_of_chain (text : List Char) : ∀ (toks : List StreamToken) (off pos : Nat),
+    C16L.Chain text toks off pos → StreamChain text toks off pos
+  | [], _, _, h => h
+  | _ :: r, _, _, ⟨h1, h2, h3, h4, h5⟩ => ⟨h1, h2, h3, h4, streamChain_of_chain text r _ _ h5⟩
+
 theorem C16_tiling (p : Predictor) (filters : List PostFilter) (text : List Char) (hne : text ≠ [])
     (hp : (∃ s, pipeline p filters text = .ok s ∧ s.bounds.length + 1 = text.length) ∨
           (∃ e, pipeline p filters text = .err e)) :
     ∃ toks, tokenStream p filters text = .ok toks ∧ toks ≠ [] ∧ StreamChain text toks 0 0 := by
-  sorry
+  have hemp : ¬ (text.isEmpty = true) := by simpa using hne
+  unfold tokenStream
+  rw [if_neg hemp]
+  rcases hp with ⟨s, hs, hb⟩ | ⟨e, he⟩
+  · obtain ⟨toks, h1, h2, h3, _⟩ := C16L.advance_boundaryPos text hne s.bounds (by omega)
+    exact ⟨toks, by simp only [hs, h1], h2, streamChain_of_chain text toks 0 0 h3⟩
+  · obtain ⟨toks, h1, h2, h3, _⟩ := C16L.advance_boundaryPos text hne [] (by
+      have := List.length_pos_iff.mpr hne
+      simp only [List.length_nil]; omega)
+    have hb : boundaryPos text [] = [utf8Len text] := by simp [boundaryPos]
+    rw [hb] at h1
+    exact ⟨toks, by simp only [he, h1], h2, streamChain_of_chain text toks 0 0 h3⟩
 
 /-- the empty text has no tokens -/
 theorem C16_empty (p : Predictor) (filters : List PostFilter) : tokenStream p filters [] = .ok [] := by
-  sorry
+  rfl
 
 /-- the stream breaks exactly where the core pipeline (normalise, predict, line-break filter, configured filters) breaks:
 the token starts after the first are the byte offsets of the characters that follow a `W` boundary -/
@@ -54,7 +74,13 @@ theorem C16_breaks_eq_pipeline (p : Predictor) (filters : List PostFilter) (text
     (toks.drop 1).map (·.offsetFrom) =
       (List.range s.bounds.length).filterMap fun i =>
         if s.bounds[i]? = some B.W then (charToStr text)[i + 1]? else none := by
-  sorry
+  have hemp : ¬ (text.isEmpty = true) := by simpa using hne
+  obtain ⟨toks', h1, _, _, h4⟩ := C16L.advance_boundaryPos text hne s.bounds (by omega)
+  unfold tokenStream at ht
+  rw [if_neg hemp] at ht
+  simp only [hp, h1, Res.ok.injEq] at ht
+  subst ht
+  exact h4
 
 /-- for a well-formed model the pipeline keeps one boundary per adjacent pair of characters of the ORIGINAL text (this is
 where `C16_norm_len` is needed), so the hypotheses of the two theorems above are met whenever the text is NUL-free -/
@@ -63,6 +89,38 @@ theorem C16_pipeline_len (cfg : Cfg) (m : WModel) (hm : WFModel m) (p : Predicto
     (hf : buildPostFilters wsconst clusters = .ok filters) (text : List Char) (hne : text ≠ [])
     (hnul : '\x00' ∉ text) (hcl : ∀ l ∈ clusters, 1 ≤ l) (hsum : clusters.sum = text.length) :
     ∃ s, pipeline p filters text = .ok s ∧ s.bounds.length + 1 = text.length ∧ ∀ b ∈ s.bounds, b ≠ B.U := by
-  sorry
+  obtain ⟨s, h1, g⟩ := C16L.pipeline_good cfg m hm p hp wsconst clusters filters hf text hne hnul hcl hsum
+  exact ⟨s, h1, by rw [g.inv.bounds_len, g.len], g.noU⟩
+
+/-! ## non-vacuity -/
+
+example : Gen.fullwidth "a-1".toList = "ａ−１".toList := by decide
+
+/-- a model over the NORMALISED alphabet (full-width letters), window 1 -/
+def C16_exModel : WModel :=
+  { charNgrams := [⟨['ａ'], [1, -2]⟩, ⟨['ａ', 'ｂ'], [5]⟩], typeNgrams := [⟨[2], [3, 4]⟩, ⟨[2, 2], [-1]⟩],
+    dict := [⟨['ａ', 'ｂ'], [1, 2, 3], []⟩], bias := -10, charW := 1, typeW := 1, tagModels := [] }
+
+example : WFModel C16_exModel :=
+  { charW_pos := by decide, charW_le := by decide, typeW_pos := by decide, typeW_le := by decide,
+    char_nodup := by decide, char_shape := by decide, type_nodup := by decide, type_shape := by decide,
+    dict_nodup := by decide, dict_shape := by decide }
+
+/-- "abé1" (é takes two bytes): the pipeline works on "ａｂé１" and breaks after the first character; the tokens carry
+the ORIGINAL characters and byte offsets 0–1 and 1–5 of the original text -/
+example : (match Predictor.new {} C16_exModel false, buildPostFilters "DG".toList [1, 1, 1, 1] with
+    | .ok p, .ok fs => tokenStream p fs "abé1".toList
+    | _, _ => .ok []) = .ok [⟨0, 1, 0, ['a']⟩, ⟨1, 5, 1, ['b', 'é', '1']⟩] := by decide +kernel
+
+example : (match Predictor.new {} C16_exModel false, buildPostFilters "DG".toList [1, 1, 1, 1] with
+    | .ok p, .ok fs => (match pipeline p fs "abé1".toList with | .ok s => some (s.text, s.bounds) | _ => none)
+    | _, _ => none) = some ("ａｂé１".toList, [B.W, B.N, B.N]) := by decide +kernel
+
+/-- a text with NUL (rejected by `Sentence::from_raw`) comes back as one token -/
+example : (match Predictor.new {} C16_exModel false, buildPostFilters "DG".toList [1, 1] with
+    | .ok p, .ok fs => tokenStream p fs "a\x00".toList
+    | _, _ => .ok []) = .ok [⟨0, 2, 0, ['a', '\x00']⟩] := by decide +kernel
+
+example : (match buildPostFilters "DX".toList [] with | .err _ => true | _ => false) = true := by decide
 
 end V
